@@ -92,7 +92,7 @@ def gen_case(rng, big=False, tie=False):
             y = [str(Fraction(rng.randint(0, 16), 4)) for _ in range(d)]
             step = Fraction(delta) / 2
             pos = [[str(float(step * rng.randint(0, int(Fraction(L[0]) / step) * 2)))] + [str(float(Fraction(v))) for v in y[1:]] for _ in range(N)]
-        elif config == "grid":
+        elif config == "grid" and math.prod(max(1, int(Lf[k])) + 1 for k in range(d)) >= 2 * N:
             # distinct integer grid sites, handed over as an INTEGER array (lattice-gas / pixel coordinates): the separations are then
             # integer arrays too, and whatever is written back into them is truncated
             sites = set()
